@@ -374,6 +374,39 @@ pub fn c41_net_forward_ref_cycle<'a>(p2: &Process<'a, P2>, a: Stream<u32, P<'a>>
     complete.complete(back);
 }
 
+/// a bounded top-level singleton captured by reference in a map closure of another stream
+pub fn c41_ref_top<'a>(a: Stream<u32, P<'a>>) {
+    let p = a.location().clone();
+    let base = p.source_iter(q!([1u32, 2, 3])).fold(q!(|| 0u32), q!(|acc, x| *acc += x));
+    let base_ref = base.by_ref();
+    a.embedded_output("echo");
+    p.source_iter(q!([10u32, 20])).map(q!(|x| x + *base_ref)).embedded_output("out");
+}
+
+/// a tick-level singleton (count of the batch) captured by two closures of the same tick, and
+/// also consumed as a value
+pub fn c41_ref_tick_two_uses<'a>(a: Stream<u32, P<'a>>) {
+    let tick = a.location().tick();
+    let batch = a.batch(&tick, nondet!(/** test */));
+    let n = batch.clone().fold(q!(|| 0u32), q!(|acc, _x| *acc += 1));
+    let n_ref = n.by_ref();
+    let big = batch.clone().filter(q!(|x| *x > *n_ref));
+    let scaled = batch.map(q!(|x| x * *n_ref));
+    big.chain(scaled).cross_singleton(n).all_ticks().embedded_output("out");
+}
+
+/// a mutable capture followed by a shared capture of the same singleton (access groups)
+pub fn c41_ref_mut_then_ref<'a>(a: Stream<u32, P<'a>>) {
+    let tick = a.location().tick();
+    let batch = a.batch(&tick, nondet!(/** test */));
+    let acc = tick.singleton(q!(0u32));
+    let acc_mut = acc.by_mut();
+    let bumped = batch.clone().map(q!(|x| { *acc_mut += x; x }));
+    let acc_ref = acc.by_ref();
+    let seen = batch.map(q!(|x| x + *acc_ref));
+    bumped.chain(seen).all_ticks().embedded_output("out");
+}
+
 // ------------------------------------------------------------------------------------ stages
 // typed building blocks for the generated compositions (src/generated.rs, written by
 // tools/hydrob.py from VERIF_SEED): every stage maps an unbounded totally ordered u32 stream of
